@@ -348,6 +348,7 @@ def translation_unit(cases):
     for c in cases:
         parts.append(c.cpp())
     parts.append("int main()\n{")
+    parts.append("  fixed_slot_by_reference();")
     for c in cases:
         parts.append("  case_%d();" % c.idx)
     parts.append("  return 0;\n}")
